@@ -43,7 +43,7 @@ def floors(tier):
             'leaves_array_valued_expanded': 150, 'leaves_ndarray_backed': 150, 'leaves_non_float64_ndarray': 40,
             'callable_subjects': 200, 'single_callable_form': 20, 'camera_options': 20, 'algebra_traits_checked': 300,
             'drag_histories': 150, 'drag_updates': 400, 'dragged_sparse_points': 200, 'dragged_dense_points': 40,
-            'dependent_callables_reencoded': 100}
+            'dependent_callables_reencoded': 100, 'root_callable_drag_histories': 40, 'update_messages': 100, 'scenes_with_a_reused_callable_object': 40}
 
 
 def plan(tier, seed):
@@ -271,6 +271,13 @@ def scene_case(ctx, alg, iso, cfg, name, i):
     scene = Scene()
     single = rng.random() < 0.08
     subjects = [rand_tree(rng, alg, scene, rng.randint(0, 3)) for _ in range(rng.randint(1, 4))]
+    if rng.random() < 0.25:
+        # the same callable object occurs more than once in the scene (shared end points of several segments)
+        m_ = rand_mv(rng, alg, scene, allow_array=False)
+        shared_call = (lambda m_=m_: m_) if rng.random() < 0.6 else (lambda m_=m_: [m_, 0x00FF00])
+        subjects += [shared_call, [shared_call, 'S'], shared_call]
+        scene.counters['callables'] = scene.counters.get('callables', 0) + 3
+        scene.counters['reused'] = 1
     options = {}
     if rng.random() < 0.12:
         options['camera'] = rand_mv(rng, alg, scene, allow_array=False, force=rng.choice(['sparse', 'dense-canonical', 'dense-binary']))
@@ -296,6 +303,8 @@ def scene_case(ctx, alg, iso, cfg, name, i):
     ctx.count('scenes')
     if single:
         ctx.count('single_callable_form')
+    if scene.counters.get('reused'):
+        ctx.count('scenes_with_a_reused_callable_object')
     ctx.count('callable_subjects', scene.counters.get('callables', 0) + (1 if single else 0))
     ctx.case(cid)
     classes = {'sparse': 'leaves_sparse', 'permuted': 'leaves_permuted_keys', 'dense-canonical': 'leaves_dense_canonical',
@@ -436,10 +445,28 @@ def drag_case(ctx, alg, cfg, name, i):
     for o in others:
         subjects.append([o])
     subjects.append(dependent)
-    cid = [name, 'drag', i, [lbl for _, lbl in scene.mvs]]
+    ticks = []
+    clock = [1.0]
+
+    def ticking():
+        # value depends on the harness-controlled clock only (the oracle may evaluate it too); calls are counted separately
+        ticks.append(1)
+        return points[0] * clock[0]
+    subjects.append(ticking)
+    root_form = rng.random() < 0.35
+    cid = [name, 'drag', i, [lbl for _, lbl in scene.mvs], root_form]
     if not ctx.want(cid):
         return
-    st, w = ctx.guarded(30, lambda: alg.graph(*subjects))
+    if root_form:
+        # the documented animation style: one root callable returning the whole scene
+        inner_subjects = subjects
+
+        def scene_func():
+            return inner_subjects
+        ctx.count('root_callable_drag_histories')
+        st, w = ctx.guarded(30, lambda: alg.graph(scene_func))
+    else:
+        st, w = ctx.guarded(30, lambda: alg.graph(*subjects))
     if st != 'ok':
         if st == 'exc':
             ctx.note_raised(w, 'graph')
@@ -503,8 +530,24 @@ def drag_case(ctx, alg, cfg, name, i):
                 probs.append(['dependent callable was not re-evaluated'])
         except DecodeError as e:
             probs.append(['subjects after drag not decodable', str(e)])
+        # an update request from the front end re-evaluates the subjects (time-dependent callables advance)
+        if rng.random() < 0.5:
+            clock[0] += 1.0
+            nt = len(ticks)
+            try:
+                w._handle_custom_msg({'type': 'update_mvs'}, [])
+                dec2 = flatten(decode(w.subjects, w.key2idx))
+                called = len(ticks) > nt
+                exp2 = expected_leaves(subjects, alg)
+                ctx.count('update_messages')
+                if not called:
+                    probs.append(['update_mvs did not re-evaluate the callables'])
+                if len(dec2) != len(exp2) or any(not leaves_equal(a, b) for a, b in zip(dec2, exp2)):
+                    probs.append(['subjects after update_mvs do not decode to the re-evaluated state'])
+            except DecodeError as e:
+                probs.append(['subjects after update_mvs not decodable', str(e)])
         if probs:
-            ctx.violation('drag update was not written back correctly', cid + [step], step=step, sent=[nw['mv'] for nw in news], problems=probs[:8],
+            ctx.violation('drag update was not written back correctly', cid + [step], step=step, root_callable_form=root_form, sent=[nw['mv'] for nw in news], problems=probs[:8],
                           offending=[dict(describe_mv(alg, p, 'point'), dense=len(p) == n, canonical_order=tuple(p.keys()) == canon)
                                      for p in points if len(p) == n and tuple(p.keys()) != canon], **wit)
             return
